@@ -625,8 +625,6 @@ def known_class(g, cuts, obs, ref):
             for (d0, d1) in r["cl_spans"]:
                 if any(d0 < c <= d1 for c in cuts) or (d0 < len(s) <= d1) or big:
                     return KF_HTTP_CL
-            if r["outcome"] == "connected" and r["off"] < len(s) and (r["off"] not in cuts):
-                return KF_HTTP_COAL
         else:
             # replies outside the reference grammar: bad Content-Length values still contain digit runs
             for m in re.finditer(rb"(?i)content-length: *(\d+)", s):
